@@ -161,7 +161,7 @@ func raceC15(t *rt.Tape, sum *raceSummary) {
 					wg.Add(1)
 					go func(cp rtcm.Message, fi int) {
 						defer wg.Done()
-						txt := stripTimeLines(cp.String())
+						txt := displayOf(&cp)
 						if txt != bases[fi].text {
 							mu.Lock()
 							sum.Mismatches++
